@@ -90,15 +90,19 @@ ViewMC == <<blocks, base, max, run>>
 (* ---- PropC38 ----------------------------------------------------------- *)
 Min(a, b) == IF a < b THEN a ELSE b
 Tracked == LET n == Min(max, Len(run)) IN SubSeq(run, Len(run) - n + 1, Len(run))   \* what should be tracked
-TrackerExact ==
-    /\ Len(blocks) = Len(Tracked)
-    /\ \A i \in 1..Len(blocks) : blocks[i] = Tracked[i].txs /\ Tracked[i].h = base + i - 1
+TrackerExactOn(tr) ==
+    /\ Len(blocks) = Len(tr)
+    /\ \A i \in 1..Len(blocks) : blocks[i] = tr[i].txs /\ tr[i].h = base + i - 1
     /\ Len(run) = 0 => RangeResult[1] = RangeResult[2]
-    /\ Len(run) > 0 => RangeResult = <<Tracked[1].h, run[Len(run)].h + 1>>
-DupInTracked(tx, start) == \E i \in 1..Len(Tracked) : Tracked[i].h >= start /\ tx \in Tracked[i].txs
-VerifyExact ==
-    \A tx \in Tx, st \in Heights :
-        /\ DupInTracked(tx, st) => VerifyResult(tx, st) = "err"
-        /\ (st >= RangeResult[1] /\ ~DupInTracked(tx, st)) => VerifyResult(tx, st) = "ok"
-PropC38 == TrackerExact /\ VerifyExact
+    /\ Len(run) > 0 => RangeResult = <<tr[1].h, run[Len(run)].h + 1>>
+DupIn(tr, tx, start) == \E i \in 1..Len(tr) : tr[i].h >= start /\ tx \in tr[i].txs
+VerifyExactOn(tr) ==
+    \A tx \in Tx, st \in {g \in Heights : g + 2 >= base /\ g <= base + Len(blocks) + 1} :   \* the window where answers change
+        LET dup == DupIn(tr, tx, st)
+            res == VerifyResult(tx, st)
+        IN /\ dup => res = "err"
+           /\ (st >= RangeResult[1] /\ ~dup) => res = "ok"
+TrackerExact == TrackerExactOn(Tracked)
+VerifyExact == VerifyExactOn(Tracked)
+PropC38 == LET tr == Tracked IN TrackerExactOn(tr) /\ VerifyExactOn(tr)
 =============================================================================
